@@ -33,18 +33,18 @@ def main():
     global REPO
     pid, k = sys.argv[1], sys.argv[2]
     mode = sys.argv[3] if len(sys.argv) > 3 else "both"
-    src = "/tmp/seedout_%s" % pid
+    src = os.environ.get("SEED_SRC", "/tmp/seedout_%s" % pid)
     patch = os.path.join(src, "patch%s.diff" % k)
     demo_src = os.path.join(src, "demo%s_test.go.txt" % k)
     first = open(demo_src).readline().strip().lstrip("/ ").strip()
     import re
     m = re.match(r"(?i)place at:?\s*(\S+)\s*;\s*run:\s*(.*)$", first)
     demo_rel, demo_cmd = m.group(1), m.group(2)
-    out = "/verif/seeded/%s-%s" % (pid, k)
+    out = "/verif/seeded/%s-%s" % (pid, int(k) + int(os.environ.get("SEED_OFFSET", "0")))
     os.makedirs(out, exist_ok=True)
     mp = os.path.join(out, "meta.json")
     meta = json.load(open(mp)) if os.path.exists(mp) else {}
-    meta.update({"property": pid, "variant": int(k), "patch": "patch.diff", "demo": os.path.basename(demo_rel),
+    meta.update({"property": pid, "variant": int(k) + int(os.environ.get("SEED_OFFSET", "0")), "patch": "patch.diff", "demo": os.path.basename(demo_rel),
                  "demo_path_in_repo": demo_rel, "demo_cmd": demo_cmd})
     meta.setdefault("ran", [])
     if mode in ("confirm", "both"):
